@@ -31,6 +31,34 @@ def check(ctx, cfg):
     r5(ctx, cfg)
     r6(ctx, cfg)
     r7(ctx, cfg)
+    r_overlay(ctx, cfg)
+    r9(ctx, cfg)
+
+
+def r9(ctx, cfg):
+    """"an operation that carries no positive amount fails and changes nothing" on the path most transfers take: the funds
+    attached to a wasm message reach the bank as they are - `WasmKeeper::send` forwards `BankMsg::Send { recipient, amount }`
+    with its own `amount`, and skips the bank only for an empty list (C05.R2 under C09's id)"""
+    from rules import C05
+    C05.r2_send(ctx, cfg, R="C09.R9")
+
+
+def r_overlay(ctx, cfg):
+    """premise shared with C06 (the transaction overlay is faithful), under this property's id: debit and credit of one transfer, and every later message of the transaction, read the balances the earlier steps wrote"""
+    from rules import C06
+    C06.overlay_premise(ctx, cfg, "C09.R8")
+
+
+def ledger_premise(ctx, cfg, R):
+    """the obligations of C09 that other modules' money movements rest on, under another property's id: a `BankMsg::Send`
+    reaches `send(sender, to, amount)` and a `BankSudo::Mint` reaches `mint`, a transfer is one debit and one credit of the
+    same normalised amount, the debit fails on an overdraw before anything is stored, each step loads and stores the same
+    account.  Whoever pays through the bank (funds attached to a contract call, a delegation, an unbonding payout, a
+    reward) moves exactly the amount only if these hold."""
+    r1(ctx, cfg, R=R)
+    r2_r4(ctx, cfg, R=R)
+    r3(ctx, cfg, R=R)
+    r6(ctx, cfg, R=R)
 
 
 def r7(ctx, cfg):
@@ -223,17 +251,17 @@ def r1(ctx, cfg, R="C09.R1"):
     _send_steps(cfg, R, ctx)
 
 
-def r2_r4(ctx, cfg):
+def r2_r4(ctx, cfg, R=None):
     F, P = cfg.facts, cfg.prov
     for name, addr, kind, sign in (("burn", "from_address", "debit", "-"), ("mint", "to_address", "credit", "+")):
         key = B + name
-        f = ctx.need_fn("C09.R2", key)
+        f = ctx.need_fn((R or "C09.R2"), key)
         if f is None:
             continue
         norm = q.calls(f, B + "normalize_amount")
         steps = _ledger_steps(cfg, f)
         ok = len(norm) == 1 and len(steps) == 1 and steps[0]["via"] == "inline"
-        ctx.ob("C09.R2", key, "shape", ok, "%s must normalise once and store one balance (found %d normalisations, steps %s)" % (name, len(norm), [st["kind"] for st in steps]), fn=f,
+        ctx.ob((R or "C09.R2"), key, "shape", ok, "%s must normalise once and store one balance (found %d normalisations, steps %s)" % (name, len(norm), [st["kind"] for st in steps]), fn=f,
                sample="normalize, get_balance, set_balance")
         if not ok:
             continue
@@ -241,33 +269,33 @@ def r2_r4(ctx, cfg):
         na = P.call_args(f, nt, nb)
         sb, stt = st["block"], st["call"]
         # R3: normalisation first, on the parameter, error propagated
-        ctx.ob("C09.R3", key, "normalize(param amount)", is_param(na[1], "amount"), "normalize_amount receives %s" % fmt(na[1]), fn=f,
+        ctx.ob((R or "C09.R3"), key, "normalize(param amount)", is_param(na[1], "amount"), "normalize_amount receives %s" % fmt(na[1]), fn=f,
                line=nt["line"], sample="normalize_amount(amount)")
         conds = q.dominating_conditions(P, f, sb)
         ok = any(c[0] == "variant_in" and c[2] in (("Continue",), ("Ok",)) and peel(c[1])[0] == "call" and peel(c[1])[1] == B + "normalize_amount"
                  for e, c in conds)
-        ctx.ob("C09.R3", key, "store-only-after-normalisation-succeeded", ok, "set_balance is not dominated by the success of normalize_amount", fn=f,
+        ctx.ob((R or "C09.R3"), key, "store-only-after-normalisation-succeeded", ok, "set_balance is not dominated by the success of normalize_amount", fn=f,
                line=stt["line"], sample="set_balance dominated by Continue(normalize_amount)")
         # R4: same account, same store
         ld = st["load"]
-        ctx.ob("C09.R4", key, "load-and-store-same-account", ld is not None and is_param(ld[1], addr) and is_param(st["who"], addr),
+        ctx.ob((R or "C09.R4"), key, "load-and-store-same-account", ld is not None and is_param(ld[1], addr) and is_param(st["who"], addr),
                "%s loads %s and stores %s" % (name, fmt(ld[1]) if ld else "?", fmt(st["who"])), fn=f, sample="%s / %s" % (addr, addr))
-        ctx.ob("C09.R4", key, "load-and-store-same-store", ld is not None and is_param(ld[0], "bank_storage") and is_param(st["store"], "bank_storage"),
+        ctx.ob((R or "C09.R4"), key, "load-and-store-same-store", ld is not None and is_param(ld[0], "bank_storage") and is_param(st["store"], "bank_storage"),
                "%s uses different stores" % name, fn=f, sample="bank_storage")
         # R2: the balance written: load(addr) -/+ the normalised amount, by the cw-utils operator (checked subtraction, its error
         # propagated - taken for the whole amount or coin by coin over all of it)
         ok = st["kind"] == kind and _normalised(st["amount"])
-        ctx.ob("C09.R2", key, "writes load(%s) %s amount" % (addr, sign), ok, "%s stores %s" % (name, st["detail"]), fn=f,
+        ctx.ob((R or "C09.R2"), key, "writes load(%s) %s amount" % (addr, sign), ok, "%s stores %s" % (name, st["detail"]), fn=f,
                line=stt["line"], sample=st["detail"][:160])
         if name == "burn":
             subs = [(b0, t0) for b0, t0 in f.calls() if t0["callee"].get("trait") == "std::ops::Sub"]
             ok = st["kind"] == "debit" and bool(subs) and all(q.error_propagates(P, f, b0) for b0, t0 in subs)
-            ctx.ob("C09.R2", key, "overdraw-error-propagated", ok, "set_balance is reachable although the checked subtraction failed", fn=f,
+            ctx.ob((R or "C09.R2"), key, "overdraw-error-propagated", ok, "set_balance is reachable although the checked subtraction failed", fn=f,
                    line=stt["line"], sample="the error of `a - amount` leaves burn")
         ret = peel(P.ret(f))
         rest = [o for o in alts(ret) if not (o[0] == "call" and o[1].endswith("FromResidual::from_residual"))]
         ok = len(rest) == 1 and rest[0][0] == "call" and rest[0][1] == B + "set_balance"
-        ctx.ob("C09.R2", key, "returns-store-result", ok, "%s returns %s" % (name, fmt(ret)[:120]), fn=f, sample="set_balance(..) | propagated errors")
+        ctx.ob((R or "C09.R2"), key, "returns-store-result", ok, "%s returns %s" % (name, fmt(ret)[:120]), fn=f, sample="set_balance(..) | propagated errors")
     # BALANCES is written only by set_balance
     writers = []
     readers = []
@@ -281,9 +309,9 @@ def r2_r4(ctx, cfg):
                         writers.append(f.key)
                     else:
                         readers.append((f.key, c["name"]))
-    ctx.ob("C09.R4", "bank::BALANCES", "single-writer", writers == [B + "set_balance"], "BALANCES is written by %s" % writers, sample=str(writers))
+    ctx.ob((R or "C09.R4"), "bank::BALANCES", "single-writer", writers == [B + "set_balance"], "BALANCES is written by %s" % writers, sample=str(writers))
     key = B + "set_balance"
-    f = ctx.need_fn("C09.R4", key)
+    f = ctx.need_fn((R or "C09.R4"), key)
     if f is not None:
         sv = q.calls(f, "cw_storage_plus::Map::save")
         ok = len(sv) == 1
@@ -294,15 +322,15 @@ def r2_r4(ctx, cfg):
                 bal = peel(bal[1])
             ok = is_param(a[1], "bank_storage") and is_param(a[2], "account") and bal[0] == "agg" and bal[1].startswith("cw_utils::NativeBalance") and \
                 is_param(bal[2][0][1], "amount")
-        ctx.ob("C09.R4", key, "saves(account -> amount)", ok, "set_balance does not save NativeBalance(amount) under account", fn=f,
+        ctx.ob((R or "C09.R4"), key, "saves(account -> amount)", ok, "set_balance does not save NativeBalance(amount) under account", fn=f,
                sample="BALANCES.save(bank_storage, account, &NativeBalance(amount))")
         # ... in normal form: zero coins dropped, denominations sorted and merged (the single-denomination query reads the first
         # entry of a denomination, AllBalances lists every entry, Supply adds all of them - they agree only on normalised lists)
         okn = len(sv) == 1 and contains(P.call_args(f, sv[0][1], sv[0][0])[3], lambda x: x[0] == "mutby" and x[1] == "cw_utils::NativeBalance::normalize")
-        ctx.ob("C09.R4", key, "saved-balance-is-normalised", okn, "set_balance saves the coin list without NativeBalance::normalize()", fn=f,
+        ctx.ob((R or "C09.R4"), key, "saved-balance-is-normalised", okn, "set_balance saves the coin list without NativeBalance::normalize()", fn=f,
                sample="balance.normalize() before BALANCES.save")
     key = B + "init_balance"
-    f = ctx.need_fn("C09.R4", key)
+    f = ctx.need_fn((R or "C09.R4"), key)
     if f is not None:
         vals = [peel(v) for v in q.success_payloads(P, f)]
         ok = bool(vals)
@@ -314,26 +342,25 @@ def r2_r4(ctx, cfg):
             st = peel(a[1])
             ok = ok and st[0] == "call" and st[1] == "prefixed_storage::prefixed" and is_param(st[2][0], "storage") and peel(st[2][1]) == ("item", "bank::NAMESPACE_BANK") and \
                 is_param(a[2], "account") and is_param(a[3], "amount")
-        ctx.ob("C09.R4", key, "sets-the-given-balance-of-the-given-account", ok, "init_balance does not answer set_balance(bank view, account, amount)", fn=f,
+        ctx.ob((R or "C09.R4"), key, "sets-the-given-balance-of-the-given-account", ok, "init_balance does not answer set_balance(bank view, account, amount)", fn=f,
                sample="set_balance(prefixed(storage, NAMESPACE_BANK), account, amount)")
     key = B + "get_balance"
-    f = ctx.need_fn("C09.R4", key)
+    f = ctx.need_fn((R or "C09.R4"), key)
     if f is not None:
         ld = q.calls(f, "cw_storage_plus::Map::may_load")
         ok = len(ld) == 1
         if ok:
             a = P.call_args(f, ld[0][1], ld[0][0])
             ok = peel(a[0]) == ("item", "bank::BALANCES") and is_param(a[1], "bank_storage") and is_param(a[2], "addr")
-        ctx.ob("C09.R4", key, "loads(addr)", ok, "get_balance does not load BALANCES[addr]", fn=f, sample="BALANCES.may_load(bank_storage, addr)")
+        ctx.ob((R or "C09.R4"), key, "loads(addr)", ok, "get_balance does not load BALANCES[addr]", fn=f, sample="BALANCES.may_load(bank_storage, addr)")
 
 
-def r3(ctx, cfg):
+def r3(ctx, cfg, R="C09.R3"):
     """normalize_amount keeps exactly the non-zero coins of its argument, in order, and succeeds only when something
     remains.  Form-agnostic (vlib/pipeline.py): `amount.into_iter().filter(|c| !c.amount.is_zero()).collect()` and
     `for c in amount { if !c.amount.is_zero() { v.push(c) } }` have the same contributions."""
     from vlib import pipeline
     F, P = cfg.facts, cfg.prov
-    R = "C09.R3"
     key = B + "normalize_amount"
     f = ctx.need_fn(R, key)
     if f is None:
@@ -565,9 +592,8 @@ def r5(ctx, cfg, R="C09.R5"):
                        sample="Ok(coin(supply, denom))")
 
 
-def r6(ctx, cfg):
+def r6(ctx, cfg, R="C09.R6"):
     F, P = cfg.facts, cfg.prov
-    R = "C09.R6"
     f = ctx.need_fn(R, EXEC)
     if f is not None:
         view = q.calls(f, "prefixed_storage::prefixed")
